@@ -7,6 +7,7 @@ identity tag of the shipped constant they are (0 for anonymous), so the model re
 its own translation of `__init__`.
 """
 import math
+import os
 import random
 from common import fhex
 
@@ -633,6 +634,40 @@ REGISTRY['NtvInterp.bilinear_interpolation'] = (NT.bilinear_interpolation, g_bil
 REGISTRY['NtvInterp.bicubic_interpolation'] = (NT.bicubic_interpolation, g_bicubic)
 # np.matmul(cinv, xarr) goes through BLAS (summation order): |nodes| <= 100, row sums of |cinv| <= 81
 TIE_TOL['NtvInterp.bicubic_interpolation'] = [(1, 'abs', 2e-10)]
+
+# ------------------------------------------------------------------------------------------
+# the stand-alone MGA -> GDA converter (regenerated as GenF.Mga2gda; its module-level constants, computed by the script
+# with the `decimal` module, are read as plain double arithmetic: tied to 2e-11 deg, the 11-decimal output quantum)
+def _standalone():
+    import importlib.util
+    import common as _c
+    path = os.path.join(_c.REPO, 'Standalone', 'mga2gda.py')
+    spec = importlib.util.spec_from_file_location('mga2gda_standalone_tie', path)
+    m = importlib.util.module_from_spec(spec)
+    spec.loader.exec_module(m)
+    return m
+
+
+_SA = {}
+
+
+def _sa_grid2geo(zone, east, north):
+    if 'm' not in _SA:
+        _SA['m'] = _standalone()
+    return _SA['m'].grid2geo(zone, east, north)
+
+
+def g_sa_grid2geo(rng):
+    lat = pick(rng, [-1e-9, -10.0, -45.0], -79.9, -0.001, 0.1)
+    lon = rng.uniform(-180, 179.99)
+    _, z, e, n, _, _ = CV.geo2grid(lat, lon)
+    if rng.random() < 0.2:      # lattice values
+        e, n = float(round(e, rng.choice([0, 1, 3]))), float(round(n, rng.choice([0, 1, 3])))
+    return [float(z), e, n]
+
+
+REGISTRY['Mga2gda.grid2geo'] = (_sa_grid2geo, g_sa_grid2geo)
+TIE_TOL['Mga2gda.grid2geo'] = [(2, 'abs', 2.0000001e-11)]
 
 REGISTRY['Constants.catalogue_Transformation'] = (impl_catalogue(K.Transformation), lambda r: [])
 REGISTRY['Constants.catalogue_TransformationSD'] = (impl_catalogue(K.TransformationSD), lambda r: [])
